@@ -197,7 +197,7 @@ def import_(pid, rnd=1):
         json.dump(meta, open(os.path.join(dst, "meta.json"), "w"), indent=1)
 
 
-def refactors(pids):
+def refactors(pids, apply=False):
     """Import /tmp/seed/<pid>-out3/R*/ into /verif/refactors/<pid>rN/ and run the property's quick check with
     each applied: the expected outcome is exit 0 (silent); exit 1 is a FALSE ALARM, exit 2 a declared limitation."""
     import shutil
@@ -215,6 +215,8 @@ def refactors(pids):
                     for fn in ("patch.diff", "equiv.py", "meta.json"):
                         if os.path.isfile(os.path.join(srcd, fn)):
                             shutil.copy(os.path.join(srcd, fn), os.path.join(dst, fn))
+        if not apply:
+            continue
         for d in sorted(glob.glob(os.path.join(VERIF, "refactors", f"{pid}r*"))):
             rid = os.path.basename(d)
             rc, out = sh(f"git -C /repo apply {d}/patch.diff")
@@ -231,6 +233,9 @@ def refactors(pids):
                     json.dump(m, open(mp, "w"), indent=1)
             finally:
                 sh("git -C /repo checkout -- .")
+    if not apply:
+        ids = sorted(os.path.basename(p) for p in glob.glob(os.path.join(VERIF, "refactors", "*")) if any(os.path.basename(p).startswith(x + "r") for x in pids))
+        return sweep("refactors", ids)
     return 0
 
 
@@ -243,7 +248,7 @@ if __name__ == "__main__":
         ids = [i for i in allids if not sel or any(i.startswith(x) for x in sel)]
         sys.exit(sweep(kind, ids))
     if a and a[0] == "refactors":
-        sys.exit(refactors([x for x in a[1:] if x.startswith("C")]))
+        sys.exit(refactors([x for x in a[1:] if x.startswith("C")], apply="--apply" in a))
     if a and a[0] == "import":
         rnd = int(a[a.index("--round") + 1]) if "--round" in a else 1
         for pid in [x for x in a[1:] if x.startswith("C")]:
